@@ -44,3 +44,6 @@ func (i vInfo) Mode() fs.FileMode  { return 0o444 }
 func (i vInfo) ModTime() time.Time { return time.Time{} }
 func (i vInfo) IsDir() bool        { return false }
 func (i vInfo) Sys() any           { return nil }
+
+// VFS is the in-memory file system exported for harnesses of other packages.
+func VFS(files map[string]string) fs.FS { return vFS(files) }
